@@ -332,7 +332,7 @@ def run(ctx):
     if ctx.thorough():
         n_rand, n_long = 12000, 600
     else:
-        n_rand, n_long = 1200, 60
+        n_rand, n_long = 4000, 200
     progs = [S.gen_program(rng, "c08") for _ in range(n_rand)]
     for p in progs[:2]:
         ctx.sample(p)
